@@ -648,7 +648,9 @@ Expr={expr}"""
             # exacerbated by the fact that the list contains duplicates.  This is a patch until
             # we can create a better fix for Serialization.
             try:
-                values = list(set(values))
+                # drop duplicates, but keep the order: the values are part of the
+                # expression name, and set order depends on the hash seed
+                values = list(dict.fromkeys(values))
             except TypeError:
                 pass
             if not any(is_dask_collection(v) for v in values):
